@@ -405,6 +405,18 @@ func runcacheCmd(args []string) error {
 					sort.Slice(results, func(i, j int) bool { return results[i].name < results[j].name })
 				}
 				exs := strings.Join(ex, ".")
+				missingLit := ""
+				for _, n := range o.order {
+					for _, l := range byName[n].lits {
+						if _, ok := content[l]; !ok && missingLit == "" {
+							missingLit = rcName(n) + " depends on " + rcFiles[l]
+						}
+					}
+				}
+				if !crashed && rerr == nil && missingLit != "" {
+					// C18: a file that cannot be opened yields an error, never a digest - forced or not, the run stops with a message
+					fail("C18", fmt.Sprintf("op %d: task %s, which does not exist, yet the run (force=%v) completed without an error (executed: %s)", oi, missingLit, o.force, exs))
+				}
 				switch {
 				case crashed:
 					res = "crash ex=" + exs
@@ -739,6 +751,14 @@ func runcacheCmd(args []string) error {
 			if _, err := runB(true); err != nil {
 				continue
 			}
+			// nothing is touched from outside: a (an idempotent rewriter) may well run again, but b last succeeded on exactly
+			// the file as it is now, so an unforced second run has to skip it
+			if variant < 2 {
+				if skipped, err := runB(true); err == nil && !skipped {
+					st.OracleFail["C02"]++
+					fmt.Fprintf(bo, "C02 selfmod-%d task b ran again although it last succeeded on exactly the current content of its dependency (rewritten by task a earlier in that same run) and nothing changed since\n", variant)
+				}
+			}
 			os.WriteFile(f0, []byte("before"), 0o644) // back to what it was before the run (b last succeeded on "rewritten by a")
 			st.BySource["task-rewrites-a-later-task's-input(impl only)"]++
 			tree, _ := parser.New(src).Parse()
@@ -748,6 +768,10 @@ func runcacheCmd(args []string) error {
 				if x.Task == "b" && x.Skipped && rerr == nil {
 					st.OracleFail["C01"]++
 					fmt.Fprintf(bo, "C01 selfmod-%d task b reported skipped, but it last succeeded on the file as task a had rewritten it in that run, and the file has been put back since\n", variant)
+					if variant >= 2 {
+						st.OracleFail["C14"]++
+						fmt.Fprintf(bo, "C14 selfmod-%d after a forced run, task b is skipped although its dependency differs from what it last (forcedly) succeeded on: task a rewrote it during that run and it has been put back since\n", variant)
+					}
 				}
 			}
 			os.RemoveAll(root)
